@@ -9,6 +9,7 @@ for d in "$@"; do
     echo "confirmed at /repo commit $(git -C /repo rev-parse --short HEAD)"
     cd "$wt" || exit 1
     export JAQ="$wt/target/debug/jaq"
+    export JAQ_SRC="$wt"
     CARGO_NET_OFFLINE=true cargo build --offline -q -p jaq 2>&1 | tail -2
     sh "$d/demo.sh" >/dev/null 2>&1; echo "demo on clean tree: exit $?"
     if git apply "$d/patch.diff"; then
